@@ -101,4 +101,13 @@ def jobs(tier):
           defs=["-DV_TAG=" + tag, "-DV_DOM(v)=" + dom], cbmc=OB, timeout=600, assumed=SR_ASS[:1])
     J("canary.foam.roundtrip.one_node.HInt", "foam_h.c", "h_rt_node", RT_FNS, ["v"], kind="canary",
       defs=["-DV_TAG=FOAM_HInt", "-DV_DOM(v)=((v)>=0&&(v)<=65535)", "-DCANARY_rtnode"], cbmc=OB, timeout=600)
+    # ---- archives: an indirect ("/<offset>") member name is the name stored at that decimal offset of the name table.
+    # Harness shared with C17 (harness/C17/archive_h.c: real archive.c, buffer.c, strops.c; file model; sscanf model that
+    # takes width and radix from the format string)
+    AR = dict(cls="B", native=True, timeout=1800,
+              cbmc=["--unwind", "64", "--unwindset", "arRdItemArch:2", "--unwinding-assertions"],
+              assumed=["sscanf and strtol replaced by harness models (libc); fnameUnparse stubbed; file model: fseek/ftell/fread over an in-memory image",
+                       "header numeric fields are the text \"0\"; the name table is 12 arbitrary non-NUL bytes"])
+    J("archive.indirect_member_name", "../C17/archive_h.c", "h_arIndirectName", ["arRdItemArch", "arRdItemArch0", "arReadText", "arReadNumber", "arSeek"],
+      ["tbl", "off", "k"], bound="name table of 12 bytes (every byte value but NUL), every offset inside it", defs=["-DV_FILE_MAX=60", "-DV_NAMES_MAX=12"], **AR)
     return js
